@@ -526,6 +526,7 @@ class Kernel(object):
         self.procs = {}
         self.next_pid = PID_BASE
         self.waiters = []       # wake hooks for actors: callables
+        self.low = set()          # low descriptor numbers (0) the simulation has claimed (scenario flag fd_zero)
         self.tear_plan = world.scn.get('tear') or []   # list of ints (cyclic); 0 = no tear
         self.tear_i = 0
         self.torn = 0
@@ -562,6 +563,11 @@ class Kernel(object):
         fd = FD_BASE + (1100 if self.w.scn.get('many_fds') else 0)
         if self.w.scn.get('many_fds'):
             self.w.fault('fd_beyond_fd_setsize')
+        if self.w.scn.get('fd_zero') and not self.w.scn.get('many_fds') and 0 not in self.fds:
+            # a process whose standard input is closed (a daemon): the lowest free descriptor number is 0
+            fd = 0
+            self.low.add(0)
+            self.w.fault('descriptor_number_zero')
         while fd in self.fds:
             fd += 1
         self.fds[fd] = of
@@ -575,7 +581,7 @@ class Kernel(object):
         return of
 
     def is_sim(self, fd):
-        return isinstance(fd, int) and fd >= FD_BASE
+        return isinstance(fd, int) and (fd >= FD_BASE or fd in self.low)
 
     def close_fd(self, fd):
         of = self.fds.pop(fd, None)
